@@ -2469,6 +2469,52 @@ namespace detail {
             {
             }
 
+            // The JSON number production: -? (0 | [1-9][0-9]*) (. [0-9]+)? ([eE] [+-]? [0-9]+)?
+            static bool is_json_number(const char_type* p, std::size_t length)
+            {
+                const char_type* end = p + length;
+                auto is_digit = [](char_type c) { return c >= '0' && c <= '9'; };
+                if (p != end && *p == '-')
+                {
+                    ++p;
+                }
+                if (p == end || !is_digit(*p))
+                {
+                    return false;
+                }
+                if (*p == '0')
+                {
+                    ++p;
+                }
+                else
+                {
+                    while (p != end && is_digit(*p)) {++p;}
+                }
+                if (p != end && *p == '.')
+                {
+                    ++p;
+                    if (p == end || !is_digit(*p))
+                    {
+                        return false;
+                    }
+                    while (p != end && is_digit(*p)) {++p;}
+                }
+                if (p != end && (*p == 'e' || *p == 'E'))
+                {
+                    ++p;
+                    if (p != end && (*p == '+' || *p == '-'))
+                    {
+                        ++p;
+                    }
+                    if (p == end || !is_digit(*p))
+                    {
+                        return false;
+                    }
+                    while (p != end && is_digit(*p)) {++p;}
+                }
+                return p == end;
+            }
+
             reference evaluate(const std::vector<parameter_type>& args, eval_context<Json>& context, std::error_code& ec) const override
             {
                 JSONCONS_ASSERT(args.size() == *this->arity());
@@ -2489,6 +2535,10 @@ namespace detail {
                     case json_type::string:
                     {
                         auto sv = arg0.as_string_view();
+                        if (!is_json_number(sv.data(), sv.length()))
+                        {
+                            return context.null_value();
+                        }
                         uint64_t uval{ 0 };
                         auto result1 = jsoncons::to_integer(sv.data(), sv.length(), uval);
                         if (result1)
